@@ -237,6 +237,20 @@ def run(ctx):
                       detail={"facts": [logic.show(g) for g in st]})
             ok2 = logic.entails(st, ("a", "(%s.size() == 1)" % pn), lg.axioms)[0] is True
             ctx.check(ok2, "R13.3", f, "exactly-one-character", "short_ can be set to a string whose length is not 1", (f, e.get("ln")))
+        # every way of returning normally has seen a one-character argument: either the length test itself, or the argument equals
+        # the letter already stored and that letter is non-empty (the stored letter is one character: the guarded assignment above is its only writer)
+        nret = 0
+        for bid, i, e in f.roots():
+            if e["expr"].get("k") != "return" or bid not in IN:
+                continue
+            nret += 1
+            st = before.get((bid, i)) or frozenset()
+            one_char = logic.entails(st, ("a", "(%s.size() == 1)" % pn), lg.axioms)[0] is True
+            same = (logic.entails(st, ("a", "(%s == this.short_)" % pn), lg.axioms)[0] is True or logic.entails(st, ("a", "(this.short_ == %s)" % pn), lg.axioms)[0] is True) \
+                and logic.entails(st, Not(("a", "this.short_.empty()")), lg.axioms)[0] is True
+            ctx.check(one_char or same, "R13.3", f, "accepts-only-one-character", "short_name() can return normally for an argument whose length was never tested (path facts: %s): a short name that is not one character - the empty string - is accepted"
+                      % sorted(logic.show(g) for g in st)[:4], (f, e.get("ln")))
+        ctx.need("R13.3", "normal returns of short_name in " + (f.cls or ""), nret, 1)
         excs = [exc for b in IN if f.is_noreturn(b) for _, exc, _ in C04.raise_nodes(f, b)]
         ctx.check(len(excs) >= 2 and all(x == PARSER_ERROR for x in excs), "R13.3", f, "setter-raises-parser_error", "short_name() rejections raise %s" % excs, f)
 
